@@ -684,6 +684,7 @@ callback_chunkedheader(void * cookie, int status)
 		 * NUL-terminated but it does contain an EOL, so the cast is
 		 * safe.
 		 */
+		buf[eolpos] = '\0';
 		if (PARSENUM_EX(&clen, (const char *)buf, 0, SIZE_MAX, 16, 1)) {
 			/* Print ${buf} carefully (it's not NUL-terminated). */
 			if (eolpos <= INT_MAX)
